@@ -56,6 +56,9 @@ def check(prop, tier, seed):
                      dict(a="recv", ty="2"), dict(a="send", ty="V")]
         if i % 3 == 1:
             steps = [dict(a="recv", ty="1"), dict(a="recv", ty="0"), dict(a="send", ty="V"), dict(a="send", ty="V"), dict(a="send", ty="V")]
+        if i % 4 == 2:
+            # one message object sent three times while the writer is held back (the queue drains afterwards)
+            steps = [dict(a="send", ty="V"), dict(a="burst", ty="V"), dict(a="recv", ty="1"), dict(a="burst", ty="V")]
         late_at = 0
         if c.get("late"):
             steps = [dict(a="send", ty="V"), dict(a="recv", ty="1"), dict(a="recv", ty="D"), dict(a="recv", ty="0"),
